@@ -63,3 +63,64 @@ Theorem parseExpression_fuel_mono n m prec st r s :
 Proof.
   intros L H. induction L as [|m L IH]; [exact H|]. apply expr_group_mono, IH.
 Qed.
+
+(* ---------- the statement parser *)
+Lemma parseExpressionList_fuel_mono1 n e st r s :
+  parseExpressionList n e st = POk r s -> parseExpressionList (S n) e st = POk r s.
+Proof. apply expr_group_mono. Qed.
+
+Lemma parseExpression_fuel_mono1 n prec st r s :
+  parseExpression n prec st = POk r s -> parseExpression (S n) prec st = POk r s.
+Proof. apply expr_group_mono. Qed.
+
+Lemma parseExpressionStmt_mono1 n st r s : parseExpressionStmt n st = POk r s -> parseExpressionStmt (S n) st = POk r s.
+Proof. intro H. pose proof parseExpression_fuel_mono1 as IH. unfold parseExpressionStmt in H |- *. repeat mstep H. Qed.
+
+Lemma parseAssignStmt_mono1 n st r s : parseAssignStmt n st = POk r s -> parseAssignStmt (S n) st = POk r s.
+Proof. intro H. pose proof parseExpression_fuel_mono1 as IH. unfold parseAssignStmt in H |- *. repeat mstep H. Qed.
+
+Lemma parseEmbeddedCode_mono1 n st r s : parseEmbeddedCode n st = POk r s -> parseEmbeddedCode (S n) st = POk r s.
+Proof.
+  intro H. pose proof parseExpressionStmt_mono1 as IH1. pose proof parseAssignStmt_mono1 as IH2.
+  unfold parseEmbeddedCode in H |- *. repeat mstep H.
+Qed.
+
+Lemma parseCondDirective_mono1 n mk st r s : parseCondDirective n mk st = POk r s -> parseCondDirective (S n) mk st = POk r s.
+Proof. intro H. pose proof parseExpression_fuel_mono1 as IH. unfold parseCondDirective in H |- *. repeat mstep H. Qed.
+
+Lemma parseDumpStmt_mono1 n st r s : parseDumpStmt n st = POk r s -> parseDumpStmt (S n) st = POk r s.
+Proof. intro H. pose proof parseExpressionList_fuel_mono1 as IH. unfold parseDumpStmt in H |- *. repeat mstep H. Qed.
+
+Definition Ms n := forall st r s, parseStatement n st = POk r s -> parseStatement (S n) st = POk r s.
+Definition Mbl n := forall acc st r s, blockLoop n acc st = POk r s -> blockLoop (S n) acc st = POk r s.
+Definition Mbs n := forall st r s, parseBlockStmt n st = POk r s -> parseBlockStmt (S n) st = POk r s.
+Definition Mbody n := forall st r s, parseBody n st = POk r s -> parseBody (S n) st = POk r s.
+Definition Mei n := forall acc st r s, elseIfLoop n acc st = POk r s -> elseIfLoop (S n) acc st = POk r s.
+Definition Msl n := forall acc st r s, parseSlots n acc st = POk r s -> parseSlots (S n) acc st = POk r s.
+
+Lemma stmt_group_mono n : Ms n /\ Mbl n /\ Mbs n /\ Mbody n /\ Mei n /\ Msl n.
+Proof.
+  induction n as [|f (IHs & IHbl & IHbs & IHbody & IHei & IHsl)].
+  { unfold Ms, Mbl, Mbs, Mbody, Mei, Msl. repeat split; intros; discriminate. }
+  unfold Ms, Mbl, Mbs, Mbody, Mei, Msl in *.
+  pose proof parseExpression_fuel_mono1 as L1. pose proof parseEmbeddedCode_mono1 as L2.
+  pose proof parseCondDirective_mono1 as L3. pose proof parseDumpStmt_mono1 as L4.
+  repeat split.
+  - intros st r s H. cbn [parseStatement] in H |- *. repeat mstep H.
+  - intros acc st r s H. cbn [blockLoop] in H |- *. repeat mstep H.
+  - intros st r s H. cbn [parseBlockStmt] in H |- *. repeat mstep H.
+  - intros st r s H. cbn [parseBody] in H |- *. repeat mstep H.
+  - intros acc st r s H. cbn [elseIfLoop] in H |- *. repeat mstep H.
+  - intros acc st r s H. cbn [parseSlots] in H |- *. repeat mstep H.
+Qed.
+
+Lemma programLoop_mono1 n : forall acc st r s, programLoop n acc st = POk r s -> programLoop (S n) acc st = POk r s.
+Proof.
+  induction n as [|f IH]; intros acc st r s H; [discriminate|].
+  pose proof (proj1 (stmt_group_mono f)) as L. unfold Ms in L.
+  cbn [programLoop] in H |- *. repeat mstep H.
+Qed.
+
+Theorem programLoop_fuel_mono n m acc st r s :
+  (n <= m)%nat -> programLoop n acc st = POk r s -> programLoop m acc st = POk r s.
+Proof. intros L H. induction L as [|m L IH]; [exact H|]. apply programLoop_mono1, IH. Qed.
